@@ -18,6 +18,7 @@ ASSUMPTIONS = dict(common.OPAQUE_ASSUMPTIONS)
 ASSUMPTIONS.update(common.ENV_OPAQUE_ASSUMPTIONS)
 ASSUMPTIONS.update({
     "Value": "opaque stand-in for values::Value (not inspected by pop_to_toplevel)",
+    "default": "BlockBindings::default() is an empty block",
     "vc_clone": "Clone", "vs_string_eq_lit": "-", "vs_string_eq": "-", "vs_string_from_lit": "-",
 })
 LEMMAS = {}
@@ -29,7 +30,20 @@ GLUE = """
 #[verifier::external_body] pub struct Value { _o: u8 }
 """
 
+DEFAULT_GLUE = """
+impl BlockBindings {
+    #[verifier::external_body]
+    pub fn default() -> (r: Self) { unimplemented!() }
+}
+"""
+
 WITNESSES = [
+    {"match": r"pop_to_toplevel\.", "kind": "json-session", "props": ["C10"],
+     "input": ["let kept = 10", "fun boom(x) { throw(\"stop\") }",
+               "if kept > 0 { let kept = 999  let outer_secret = 111  for i in [1, 2, 3] { if i == 2 { boom(i) } } }",
+               ":abort", "kept", "outer_secret"],
+     "expect": {"py": "('999' in out.split('Aborted')[-1] or '111' in out.split('Aborted')[-1]) and 'locals of the aborted evaluation are still visible: ' + out.split('Aborted')[-1][-400:] or ''"},
+     "note": "after :abort, locals of every enclosing top-level block of the aborted evaluation are gone"},
     {"match": r"pop_to_toplevel\.post\[(no_pending|no_next_bindings)\]", "kind": "json-session", "props": ["C10"],
      "input": ["1 + \"a\"", ":abort", ":resume", "2"],
      "expect": {"py": "'panicked' in (out+err) and 'process panicked' or ''"},
@@ -45,6 +59,14 @@ def build(tier):
     u.raw(GLUE, kind="prelude")
     common.add_env_types(u)
     u.raw("pub open spec fn prefix1<T>(s: Seq<T>) -> Seq<T> { if s.len() >= 1 { s.take(1) } else { s } }", kind="spec")
+    # helpers a rewritten pop_to_toplevel may go through
+    u.add_fn("src/eval.rs", "push_block", impl="Bindings", contract=Contract(
+        ensures=[("one_more", "final(self).block_bindings@.len() == old(self).block_bindings@.len() + 1")], props={"C10"}))
+    u.add_fn("src/eval.rs", "pop_block", impl="Bindings", contract=Contract(
+        requires=[("at_least_two", "old(self).block_bindings@.len() >= 2")],
+        ensures=[("one_less", "final(self).block_bindings@ == old(self).block_bindings@.drop_last()")],
+        props={"C10"}))
+    u.raw(DEFAULT_GLUE, kind="prelude")
     u.add_fn(ENV, "pop_to_toplevel", impl="Stack", contract=Contract(
         ensures=[
             ("empty_stays_empty", "old(self).0@.len() == 0 ==> final(self).0@.len() == 0"),
